@@ -10,8 +10,20 @@ Example drawer_pinned_fails : reload_ok drawer_pinned ["name"; "number_of_cores"
 Proof. vm_compute. reflexivity. Qed.
 Example drawer_repaired_reads : reload_ok drawer_repaired (serialised_keys drawer_repaired) = true.
 Proof. vm_compute. reflexivity. Qed.
-Example some_class_is_not_drawer : exists c, In c search_classes /\ sc_name c <> "Drawer".
-Proof. exists (hd drawer_pinned (filter not_drawer search_classes)). vm_compute. split; [tauto | discriminate]. Qed.
+Example drawer_is_translated_and_reads : exists c, In c search_classes /\ sc_name c = "Drawer" /\ class_ok c = true.
+Proof.
+  destruct (class_named "Drawer" search_classes) as [c|] eqn:E; [|vm_compute in E; discriminate].
+  exists c. unfold class_named in E. apply find_some in E. destruct E as [Hin Hn].
+  split; [exact Hin|]. split; [apply String.eqb_eq; exact Hn|].
+  pose proof translated_classes_ok as H. rewrite forallb_forall in H. apply H. exact Hin.
+Qed.
+(* the keys a real LBFGS search.json carries lie in the universe of C11_all_searches *)
+Example real_keys_known : forall c, class_named "LBFGS" search_classes = Some c ->
+  keys_known c ["initial_values"; "initializer"; "inplace"; "iterations_per_update"; "name"; "number_of_cores";
+                "path_prefix"; "paths"; "unique_tag"; "visualize"] = true.
+Proof. intros c H. vm_compute in H. injection H as <-. vm_compute. reflexivity. Qed.
+Example monotone_instance : incl ["name"] ["name"; "paths"] /\ call_ok [nls_sig] ["name"; "paths"] = true.
+Proof. split; [intros k [<-|[]]; left; reflexivity | vm_compute; reflexivity]. Qed.
 
 (* the hypotheses of the grid theorems are satisfiable: the two-grid directory under the repaired id *)
 Example two_grids_wf_fixed : wf [] true false two_grids.
@@ -40,7 +52,7 @@ Proof. vm_compute. intro H. inversion H; subst. apply H2. left. reflexivity. Qed
 Definition spec_a : fit_spec :=
   {| fs_prefix := ["pp"]; fs_tag := Some "t1"; fs_name := "s1"; fs_id := "abc"; fs_class := "ScriptedSearch";
      fs_keys := ["name"]; fs_reload_id := "abc"; fs_model := "m"; fs_stored_model := "m"; fs_load_error := None;
-     fs_info := Some "i";
+     fs_info := Some "i"; fs_info_held := Some "i";
      fs_samples := [{| s_vec := "v0"; s_ll := (-4)%Z; s_inst := "i0" |}; {| s_vec := "v1"; s_ll := (-2)%Z; s_inst := "i1" |};
                     {| s_vec := "v2"; s_ll := (-2)%Z; s_inst := "i2" |}];
      fs_interrupt := NoInterrupt; fs_extra_jsons := ["attr"]; fs_analyses := [["attr"]; ["attr"]] |}.
@@ -48,7 +60,7 @@ Definition spec_a : fit_spec :=
 Definition spec_b : fit_spec :=
   {| fs_prefix := ["pp"]; fs_tag := Some "t1"; fs_name := "s2"; fs_id := "def"; fs_class := "ScriptedSearch";
      fs_keys := []; fs_reload_id := ""; fs_model := "m"; fs_stored_model := ""; fs_load_error := None;
-     fs_info := Some "i"; fs_samples := []; fs_interrupt := PreFit AtSearchPartial;
+     fs_info := Some "i"; fs_info_held := Some "i"; fs_samples := []; fs_interrupt := PreFit AtSearchPartial;
      fs_extra_jsons := ["attr"]; fs_analyses := [] |}.
 Example spec_b_not_an_output :
   healthy spec_b = false /\ f_metadata (write_fit spec_b) = false /\ f_jsons (write_fit spec_b) = ["info"; "search"].
@@ -68,3 +80,27 @@ Proof. eexists. split; [vm_compute; reflexivity | vm_compute; split; reflexivity
 (* first strict maximum *)
 Example best_first_of_ties : option_map s_vec (best (fs_samples spec_a)) = Some "v1".
 Proof. vm_compute. reflexivity. Qed.
+
+(* hypotheses of the remaining theorems are satisfiable *)
+Example unreadable_instance :
+  let f := cell_folder ["a"; "x"] "idx" "p" 0 in
+  let g := {| f_path := ["a"; "d"]; f_metadata := true; f_completed := true; f_marker := None; f_parent_file := None;
+              f_written_id := "idd"; f_class := "Drawer"; f_keys := ["number_of_cores"]; f_name := "d"; f_tag := None;
+              f_reload_id := "idd"; f_model := "m"; f_info := None; f_info_held := None; f_samples := None;
+              f_load_error := None; f_jsons := []; f_analyses := [] |} in
+  folder_reload_ok [drawer_pinned] g = false /\ scrape [drawer_pinned] true false [f; g] [] = Raised "TypeError".
+Proof. vm_compute. split; reflexivity. Qed.
+Example completed_only_instance : wf [] true true two_grids.
+Proof.
+  split.
+  - intros f Hf. vm_compute in Hf. destruct Hf as [<-|[<-|[]]]; split; reflexivity.
+  - vm_compute. repeat constructor; simpl; intuition discriminate.
+Qed.
+Example written_under_instance : written_under_folder_name (write_fit spec_a).
+Proof. split; [vm_compute; reflexivity | apply folder_name_write]. Qed.
+Example second_load_instance : wf0 [] true false two_grids [fit_row typed_info_folder].
+Proof.
+  split.
+  - intros f Hf. vm_compute in Hf. destruct Hf as [<-|[<-|[]]]; split; reflexivity.
+  - vm_compute. repeat constructor; simpl; intuition discriminate.
+Qed.
